@@ -96,7 +96,7 @@ def shrink_candidates(c): return gen.shrink_automata(c)
 
 def explain(c, impl, verd):
     return ("case = ops <L loader|F facade setters> <A> <B>, automaton = W nstarts starts nfinals finals nedges {src sym dst}; impl = U Union + "
-            "maps MA MB, D UnionDisjointStates, X Intersection + product map PM, V A.Reverse, N A.RemoveUnreachableStates, L "
+            "maps MA MB, D UnionDisjointStates, X Intersection + product map PM, V A.Reverse, N A.RemoveUnreachableStates, K composed operations (results as operands: chain_* gates), L "
             "A.RemoveUselessStates, C A.GetCandidateTree, each followed by d? = the same result read through DumpToString (EXC = the dump "
             "threw), I = operands afterwards; a CRASH line means the driver process died in this case (e.g. DumpToString of a reversed "
             "automaton). gates: union/uniondisj L(R)=L(A)+L(B); isect L(R)=L(A)&L(B); reverse = mirror images; unreach/useless same "
